@@ -197,3 +197,22 @@ def t_in_handler(tag, dur):
             time.sleep(0.05)
     log('task_end', tag=tag)
     return ('v', tag)
+
+
+class Wrapped(Exception):
+    pass
+
+
+def t_translate(tag, dur):
+    """turns whatever interrupts it into its own exception type (as a
+    `finally`/`__exit__` that raises, or `except BaseException: raise X`)"""
+    log('task_start', tag=tag)
+    try:
+        t_end = time.monotonic() + dur
+        while time.monotonic() < t_end:
+            time.sleep(0.05)
+    except BaseException as exc:
+        log('task_translating', tag=tag, exc=type(exc).__name__)
+        raise Wrapped(tag) from exc
+    log('task_end', tag=tag)
+    return ('v', tag)
